@@ -1159,7 +1159,12 @@ WS = ' \t\n\r'
 def canon_atom(v, toks: list[str], i: int, exact: bool) -> str:
     name = type(v).__name__
     cls = CLASS_OF.get(name) or DATE_CLASSES[CUR_VERSION[0]].get(name) or '?' + name
-    cands = [toks[i]] if exact and i < len(toks) else list(toks)
+    if exact and i < len(toks):
+        cands = [toks[i]]
+    elif isinstance(i, tuple):      # (preferred position, all tokens): partial-yield lists (F20g)
+        cands = [toks[i[0]]] + list(toks) if i[0] < len(toks) else list(toks)
+    else:
+        cands = list(toks)
     if isinstance(v, bool):
         val = 'true' if v else 'false'
     elif isinstance(v, int):
@@ -1216,7 +1221,20 @@ def canon_tv(node_tv, text: str | None, is_list_hint: bool) -> str:
     exact = len(toks) == len(vs)
     if not exact and not is_list_hint:
         toks = [text] + text.split()
-    return 'ok[' + ','.join(canon_atom(v, toks, i, exact) for i, v in enumerate(vs)) + ']'
+    if exact or not is_list_hint or not toks:
+        return 'ok[' + ','.join(canon_atom(v, toks, i, exact) for i, v in enumerate(vs)) + ']'
+    # a list decoded prototype by prototype: every prototype restarts at the first token; follow it
+    out, j = [], 0
+    for v in vs:
+        a = canon_atom(v, toks, (j,), False)
+        b = canon_atom(v, toks, (0,), False)
+        if j < len(toks) and canon_atom(v, [toks[j]], 0, True) == a and not a.endswith(enc('?')) and 'hex:' not in a and 'repr:' not in a:
+            out.append(a)
+            j += 1
+        else:
+            out.append(b)
+            j = 1
+    return 'ok[' + ','.join(out) + ']'
 
 
 def impl_err(e: Exception) -> str:
@@ -1793,7 +1811,7 @@ def corpus_cases() -> list[dict]:
 
 def correspond(run: Run) -> None:
     rng = run.rng
-    n = run.scale(1100, 9000)
+    n = run.scale(1300, 9000)
     run.stats.rule = (
         'one case = (generated schema over 21 builtin atomic types with restrictions, lists, unions, '
         'simple-content extensions, nillable, defaults, xsi:type, substitution groups, wildcards; XSD 1.0 or 1.1) '
